@@ -335,12 +335,79 @@ def gen_like_but_fill(rng):
     return deck
 
 
+def gen_twin_trcl_fill(rng):
+    '''Two (or three) containers filled with the SAME universe, no fill
+    transformation, each placed by its own TRCL: the universe must follow
+    each container's TRCL separately.'''
+    deck = {'title': 'c05 one universe, several TRCL containers', 'cells': [],
+            'surfaces': [], 'transforms': {}, 'materials': {}, 'data': []}
+    used = set()
+    sid = [10]
+
+    def fresh(n):
+        out = []
+        for _ in range(n):
+            surf = gen_surface(rng, sid[0], used)
+            sid[0] += 1
+            deck['surfaces'].append(surf)
+            out.append(surf['id'])
+        return out
+    radius = rng.choice([1.3, 1.5])
+    centres = [[-3.0, rng.choice([-1.5, 0.0, 1.0]), rng.choice([-1.0, 0.5])],
+               [3.0, rng.choice([-1.0, 0.5, 1.5]), rng.choice([-0.5, 1.0])]]
+    if rng.random() < 0.4:
+        centres.append([0.0, rng.choice([-3.0, 3.0]), 0.0])
+    deck['surfaces'].append({'id': 1, 'mn': 'so', 'params': [radius],
+                             'tr': None, 'bc': ''})
+
+    def cell(cid, mat, expr, u=0, fill=None, imp=1, trcl=None):
+        return {'id': cid, 'mat': mat, 'rho': '-1.0' if mat else None,
+                'expr': expr, 'imp': {'n': imp}, 'u': u, 'lat': None,
+                'fill': fill, 'trcl': trcl, 'like': None}
+    outside = []
+    for k, ctr in enumerate(centres):
+        sph = 5 + k
+        deck['surfaces'].append({'id': sph, 'mn': 's',
+                                 'params': ctr + [radius], 'tr': None, 'bc': ''})
+        outside.append(('s', sph))
+        if rng.random() < 0.5:
+            trcl = deckmod.make_tr(ctr)
+        else:
+            mat = deckmod.rotation(rng.randrange(3), rng.choice([30, 90, 120, 180]))
+            trcl = deckmod.make_tr(ctr, mat, rng.random() < 0.5)
+        if rng.random() < 0.3:
+            n = 61 + k
+            deck['transforms'][n] = trcl
+            trcl = ('num', n)
+        # the same sphere at the origin, moved by the TRCL of each container
+        deck['cells'].append(cell(1 + k, 0, ('s', -1),
+                                  fill={'u': 1, 'tr': None}, trcl=trcl))
+    deck['cells'].append(cell(9, 3, ('*',) + tuple(outside),
+                              imp=rng.choice([1, 1, 0])))
+    cid = 10
+    n_cells = rng.choice([2, 3, 3])
+    for lits in deckmod.bsp(rng, fresh(n_cells - 1 + rng.choice([0, 1])), n_cells):
+        deck['cells'].append(cell(cid, rng.choice([1, 2]),
+                                  deckmod.leaf_expr(lits), u=1))
+        cid += rng.choice([1, 2])
+    if rng.random() < 0.5:
+        rng.shuffle(deck['cells'])
+    for m in (1, 2, 3):
+        deck['materials'][m] = ['1001', '1.0']
+    deck['c05_centres'] = centres
+    return deck
+
+
 def like_points(rng, deck, n):
     '''Sample points concentrated in the two filled spheres.'''
-    centre = deck['surfaces'][1]['params'][:3]
-    pts = sample_points(rng, n // 3)
-    for c in ([0.0, 0.0, 0.0], centre):
-        for _ in range(n // 3):
+    if deck.get('c05_centres'):
+        centres = deck['c05_centres']
+    else:
+        centres = [[0.0, 0.0, 0.0], deck['surfaces'][1]['params'][:3]]
+    share = n // (len(centres) + 1)
+    pts = sample_points(rng, share)
+    for c in centres:
+        for _ in range(share):
             pts.append([c[i] + rng.uniform(-1.9, 1.9) for i in range(3)])
     return pts
 
@@ -425,7 +492,7 @@ def run_deck(deck, rng, options, n_points):
         return conv, 0, 0, [{'point': None, 'kind': 'file',
                              'why': 'written file is malformed: '
                                     + '; '.join(t4.errors[:3])}]
-    if deck.get('c05_like'):
+    if deck.get('c05_like') or deck.get('c05_centres'):
         pts = like_points(rng, deck, n_points)
     else:
         pts = sample_points(rng, n_points)
